@@ -67,6 +67,10 @@ func vh_leader_commit() {
 	} else {
 		r.configurations.committedIndex = r.configurations.latestIndex
 	}
+	// with MaxAppendEntries = 1 every committed entry travels in its own batch
+	cfgv := r.conf.Load().(Config)
+	cfgv.MaxAppendEntries = vChoose("maxAE", 1, 2)
+	r.conf.Store(cfgv)
 	pre := vSnap(r, env)
 	preLatest := r.configurations.latest.Clone()
 	r.leaderState.commitCh <- struct{}{}
@@ -97,6 +101,7 @@ func vh_leader_commit() {
 		vAssert(len(b) >= 1 && len(b) <= r.config().MaxAppendEntries, "C02.commit.batch-size-bounded")
 		for _, ct := range b {
 			vAssert(ct.log.Index > order, "C02.commit.feed-increasing")
+			vAssert(ct.log.Index > order, "C08.commit.each-entry-reaches-the-fsm-once")
 			vAssert(ct.log.Index > pre.applied && ct.log.Index <= post.commit, "C02.commit.feed-only-committed-new")
 			order = ct.log.Index
 			fed[ct.log.Index] = ct
